@@ -123,6 +123,16 @@ def build_controller(cfg):
         pclass, sclass = ex.DiagProb, generic_implicit
         pp = {'lam': per_level('lam'), 'c': per_level('c')}
         sp = {'QI': per_level('QI', 'IE')}
+    elif cfg['kind'] == 'EXPL':
+        from pySDC.implementations.sweeper_classes.explicit import explicit
+        pclass, sclass = ex.DiagProb, explicit
+        pp = {'lam': per_level('lam'), 'c': per_level('c')}
+        sp = {'QE': per_level('QE', 'EE')}
+    elif cfg['kind'] == 'MI':
+        from pySDC.implementations.sweeper_classes.multi_implicit import multi_implicit
+        pclass, sclass = ex.MultiDiagProb, multi_implicit
+        pp = {k: per_level(k) for k in ('lam1', 'c1', 'lam2', 'c2')}
+        sp = {'Q1': per_level('Q1', 'IE'), 'Q2': per_level('Q2', 'IE')}
     else:
         pclass, sclass = ex.ImexDiagProb, imex_1st_order
         pp = {k: per_level(k) for k in ('lamI', 'cI', 'lamE', 'muE', 'cE')}
